@@ -43,7 +43,14 @@ def handle_mismatches(res, prop, bad, runner, tag="", extra=None, regen=None):
         if regen is not None:
             small = regen(case)
             if small is not None:
-                best = small
+                # a smaller failing case of the same operation that is itself a recorded finding is a different
+                # failure: keep the original as the replay
+                sc, swhy, sco, smo = small
+                sx = dict(extra or {})
+                sx.update(why=swhy, fate=(sco[0] if sco else "MISSING"), model_fate=(smo[0] if smo else "MISSING"),
+                          windowed=any(l.startswith("win ") for l in sc.lines))
+                if match_known(prop, sc, sx) is None:
+                    best = small
         c2, why2, co2, mo2 = best
         path = vlib.write_replay(prop, (c2.meta.get("op", "case") + tag).replace("/", "_"),
                                  "# property %s: the implementation's output differs from the proven model%s\n"
